@@ -13,7 +13,9 @@ THEOREMS = ['Otel.C08.' + t for t in (
     'hash_of_equal_sets_equal',
     'seriesOf_self', 'overflow_folds_into_one_series', 'same_series_iff',
     'series_le_limit', 'table_inv_record', 'table_inv_mergeEntry', 'limits_are_kept', 'default_limit', 'overflow_key',
-    'total_record', 'total_mergeEntry', 'total_mergeTables', 'overflow_conserves_total', 'overflow_conserves_total_counter')] + [
+    'total_record', 'total_mergeEntry', 'total_mergeTables', 'overflow_conserves_total', 'overflow_conserves_total_counter',
+    'series_exact_below_limit', 'series_exact_counter')] + [
+    'Otel.Series.run_key_totals', 'Otel.Series.sinvK_collect',
     'Otel.Series.sinv_collect', 'Otel.Series.run_totals', 'Otel.Series.run_series_le_limit', 'Otel.Series.collect_spec',
     'Otel.Attr.sorted_ext', 'Otel.Attr.insertKV_sorted', 'Otel.Attr.lookup_insertKV']
 HARNESSES = [Harness('s_c08', ['harness/s_c08.cc'], sdk_srcs=sdk_sources('common', 'resource', 'version', 'metrics'),
@@ -421,7 +423,8 @@ def nontrivial(case, out):
 LEVEL_TEXT = ('Lean 4 theorems over executable models of OrderedAttributeMap / FilteredOrderedAttributeMap / the attributes processors '
               '(canon_eq_iff: equal keys iff equal as key->value maps, last write wins; canon_perm, canon_dedup; same_key_iff with the '
               'filter; hash_of_equal_sets_equal) and of AttributesHashMap + SyncMetricStorage::Collect + TemporalMetricStorage::buildMetrics '
-              '(same_series_iff, overflow_folds_into_one_series; series_le_limit and overflow_conserves_total for every history, every '
+              '(same_series_iff, overflow_folds_into_one_series; series_exact_below_limit: per series exactly the measurements of its '
+              'attribute set, for every history below the limit; series_le_limit and overflow_conserves_total for every history, every '
               'reader, delta and cumulative, every enumeration order of the hash tables). Limits, the overflow attribute and the shape of '
               'the overflow test / table creation are re-extracted from the source each run; tied to the code by a differential run under '
               'ASan/UBSan with unterminated keys.')
